@@ -69,11 +69,15 @@ Unwrap    == Mut("unwrap")
 
 \* the operators after which a frame sequence is continued (a rejected frame, then the well-formed one)
 SessOps == {"wrongTag", "dropItem", "dupItem", "extraItem", "dropAttr", "swapAttrs"}
+\* after a well-formed frame: the same instance again, a fixed instance c, and after c every instance
+\* (so every instance occurs both before and after another one; 3n sequences instead of n * n)
+NextInsts == LET c == CHOOSE y \in Instances(ty) : TRUE IN
+             IF inst = c THEN Instances(ty) ELSE {inst, c}
 Commit == /\ ty # "" /\ Len(sess) + 1 < MaxFrames
           /\ Len(hist) <= 1 /\ (hist # <<>> => hist[1] \in SessOps)
           /\ sess' = Append(sess, doc)
           /\ IF hist = <<>>
-             THEN \E y \in Instances(ty) : inst' = y /\ doc' = RenderKey(ty, y)
+             THEN \E y \in NextInsts : inst' = y /\ doc' = RenderKey(ty, y)
              ELSE inst' = inst /\ doc' = RenderKey(ty, inst)
           /\ hist' = <<>>
           /\ UNCHANGED ty
